@@ -438,6 +438,60 @@ def step_class(s):
             'delete': 'file-delete', 'reclimit': 'recursion-limit'}[op]
 
 
+def known_stale_cause(sc, i):
+    """Random histories: does one of the two RECORDED root causes (cache entries validated by the mtime of their own
+    file only; import lists read once) explain a difference observed at step i ?  Decided from the history alone:
+    (K2) a file in the import closure of the observed theory had its import list changed by a write after the first
+    load of the process; (K1) a theory in that closure was loaded before a file it imports was rewritten.
+    -> mechanism key of the recorded finding, or None (the difference then keeps its generic key and is a violation)."""
+    tree = sc.get('tree')
+    if not tree or tree.get('mode') != 'syn':
+        return None
+    try:
+        imports = {n: list(json.loads(t).get('imports', [])) for n, t in tree['files'].items()}
+    except Exception:
+        return None
+    initial = {n: list(v) for n, v in imports.items()}
+
+    def closure(name, imps):
+        seen, todo = set(), [name]
+        while todo:
+            x = todo.pop()
+            if x in seen:
+                continue
+            seen.add(x)
+            todo.extend(imps.get(x, []))
+        return seen
+    loaded_any = False
+    cached, changed_imports, stale_dependents = set(), set(), set()
+    for st in sc['steps'][:i]:
+        if st['op'] == 'load':
+            loaded_any = True
+            cached |= closure(st['name'], imports)
+        elif st['op'] in ('write', 'delete'):
+            n = os.path.basename(st.get('path', ''))
+            n = n[:-5] if n.endswith('.json') else n
+            new = imports.get(n, [])
+            if st['op'] == 'write':
+                try:
+                    new = list(json.loads(st['text']).get('imports', []))
+                except Exception:
+                    pass
+            if loaded_any and n in imports and new != imports[n]:
+                changed_imports.add(n)
+            for y in cached:
+                if y != n and n in closure(y, imports):
+                    stale_dependents.add(y)
+            imports[n] = new
+    x = sc['steps'][i]['name']
+    cl = closure(x, imports) | closure(x, initial)
+    if changed_imports & cl:
+        return 'changed-file-not-reread:import-list-of-changed-file-stale'
+    if stale_dependents & cl:
+        return 'changed-file-not-reread:dependent-keeps-items-parsed-against-old-import'
+    return None
+
+
 def history_class(steps):
     cl = {step_class(s) for s in steps}
     for c in CLASS_PRIORITY:
@@ -668,10 +722,12 @@ class Judge:
                         s = use['steps'][i]
                 if s.get('mech'):
                     mech = s['mech']
-                elif base == 'dump-differs-by-history':
-                    mech = base + ':after-' + history_class(use['steps'][:i])
-                elif base.startswith('load-fails-after-history'):
-                    mech = base + ':after-' + history_class(use['steps'][:i])
+                elif base == 'dump-differs-by-history' or base.startswith('load-fails-after-history'):
+                    mech = known_stale_cause(use, i)
+                    if mech is None:
+                        mech = base + ':after-' + history_class(use['steps'][:i])
+                    else:
+                        ctx.count('random_history_difference_explained_by_recorded_root_cause')
                 else:
                     mech = base + ':' + qual      # qualifier = what the fresh process raised
                 ctx.violation(mech, '%s: load_theory(%r, limit=%r%s) after history [%s] vs. fresh process: %s' % (
